@@ -5,7 +5,7 @@
 //! Actor m (1..n) is the sender thread of member m's channel, actor 0 the selecting thread.
 
 use crate::common::*;
-use crate::sched::{msg_bytes, spawn_child_sender, Gates, ProcActor, St};
+use crate::sched::{make_msg, spawn_child_sender, Gates, ProcActor, SMsg, St};
 use ipc_channel::ipc::{self, IpcReceiverSet, IpcSelectionResult};
 use serde_json::{json, Value};
 use std::collections::HashMap;
@@ -48,6 +48,7 @@ fn run_case(case: &Value, gates: &Gates) -> Value {
         .unwrap_or_default();
     let prog = case["prog"].as_array().cloned().unwrap_or_default();
     let sched = case["sched"].as_array().cloned().unwrap_or_default();
+    let attach = case["attach"].as_bool().unwrap_or(false);
     let n = msgs.len();
     let procs: Vec<i64> = case["procs"].as_array().map(|a| a.iter().filter_map(|x| x.as_i64()).collect()).unwrap_or_default();
     let mut rxs = HashMap::new();
@@ -55,11 +56,11 @@ fn run_case(case: &Value, gates: &Gates) -> Value {
     let mut pactors: HashMap<i64, ProcActor> = HashMap::new();
     for (i, npks) in msgs.iter().enumerate() {
         let m = i as i64 + 1;
-        let (tx, rx) = ipc::channel::<Vec<u8>>().unwrap();
+        let (tx, rx) = ipc::channel::<SMsg>().unwrap();
         rxs.insert(m, rx);
         if procs.contains(&m) {
             // this member's sender lives in a child process (it can be killed)
-            pactors.insert(m, spawn_child_sender(m, npks, tx));
+            pactors.insert(m, spawn_child_sender(m, npks, tx, attach));
             continue;
         }
         let npks = npks.clone();
@@ -69,7 +70,7 @@ fn run_case(case: &Value, gates: &Gates) -> Value {
             verif::set_actor(m);
             g.set_tid(m);
             for (j, npk) in npks.iter().enumerate() {
-                let _ = tx.send(msg_bytes(m, j as i64 + 1, *npk));
+                let _ = tx.send(make_msg(m, j as i64 + 1, *npk, attach, &tx));
             }
             drop(tx);
             g.finished(m);
@@ -94,8 +95,9 @@ fn run_case(case: &Value, gates: &Gates) -> Value {
                         selects.push(evs.len());
                         for e in evs {
                             match e {
-                                IpcSelectionResult::MessageReceived(id, msg) => match msg.to::<Vec<u8>>() {
-                                    Ok(d) => {
+                                IpcSelectionResult::MessageReceived(id, msg) => match msg.to::<SMsg>() {
+                                    Ok((d, att)) => {
+                                        drop(att);
                                         let tag = if d.len() >= 8 { u64::from_le_bytes(d[..8].try_into().unwrap()) } else { 0 };
                                         events.push(json!({"t": "msg", "id": id, "m": tag / 1000, "x": tag % 1000,
                                                            "intact": d == payload(tag, d.len())}));
